@@ -44,6 +44,14 @@ def propagate_viability_from_node(node: AttackGraphNode) -> None:
         if child.is_viable != original_value:
             propagate_viability_from_node(child)
 
+def _has_ttc_distribution(node: AttackGraphNode) -> bool:
+    """
+    Return True if the node has a TTC probability distribution associated
+    with it, i.e. anything other than the Enabled/Disabled constants.
+    """
+    return bool(node.ttc and 'name' in node.ttc and \
+        node.ttc['name'] not in ['Enabled', 'Disabled'])
+
 def propagate_necessity_from_node(node: AttackGraphNode) -> None:
     """
     Arguments:
@@ -72,7 +80,10 @@ def propagate_necessity_from_node(node: AttackGraphNode) -> None:
             # reads its current status, not a half-updated one.
             is_necessary = False
             for parent in child.parents:
-                is_necessary = is_necessary or parent.is_necessary
+                # Parents with a TTC distribution do not propagate their
+                # unnecessary state, so they count as necessary here too.
+                is_necessary = is_necessary or parent.is_necessary or \
+                    _has_ttc_distribution(parent)
             child.is_necessary = is_necessary
 
         # TODO: Update TTC for child attack step before if it is not necessary
